@@ -383,11 +383,15 @@ def plan_for(prop, tier, seed):
         ifs2 = RI[prop]
         p.families.append(("reinit", True, "dev", lambda ids, rng: G.f_reinit(ids, rng, n=(300 if prop in ("C12", "C17") else 150) if q else 6000, ifaces=ifs2,
                                                                               fault_rate=0.5 if prop in ("C12", "C17") else 0.25)))
+    HF = {"C01": ("p8", "p16", "spi"), "C06": ("spi",), "C07": ("p8", "p16")}
+    if prop in HF:
+        ifs3 = HF[prop]
+        p.families.append(("huge-fill", True, "dev", lambda ids, rng: G.f_huge_fill(ids, rng, ifaces=ifs3)))
     if not q:
         # thorough tier: the same programs on a release-like build (no overflow checks, no debug assertions): a
         # debug-only panic is a silently wrapped value there, and both are violations of different clauses
         REL = {"C01": ("tiny-rec",), "C02": ("tiny-oob", "oob-streams", "oob-rects"), "C03": ("long",), "C04": ("contig-tiny", "contig-rects"),
-               "C06": ("spi-grid",), "C07": ("parallel",), "C08": ("tiny-oob", "long"), "C09": ("init-grid",), "C10": ("reorient-tiny",),
+               "C06": ("spi-grid",), "C07": ("parallel", "huge-fill"), "C08": ("tiny-oob", "long"), "C09": ("init-grid",), "C10": ("reorient-tiny",),
                "C16": ("scroll",), "C20": ("overhead",)}
         for (name, batch, profile, g) in list(p.families):
             if name in REL.get(prop, ()) and batch and profile == "dev":
